@@ -10,6 +10,19 @@ through three drivers:
            the iterator returns
   merge    update_state per batch on a fresh state, merge_states, get_result
 
+and, for aggregation state that is CARRIED ACROSS STEPS (streams of >= 2
+batches; the way a worker / a nested pipeline / a resumed run drives it):
+
+  carry        one state through ChainedRunner.update_state(state, batch) for
+               every batch in turn, then get_result
+  carry-inner  the same on the TransformRunner of the aggregate stage
+               (`named_aggs`); get_result after every batch is compared with
+               the group-by of that prefix of the stream (`carry-inner@prefix`)
+  resume       iterate(batches[:k]) -> iterate(batches[k:], state=agg_state) ->
+               agg_result, the stream cut at a set of batch boundaries
+  restore      iterate(SequenceDataSource), after the batches of a set of
+               boundaries `it = it.from_state(it.state)`, -> agg_result
+
 Oracle: vmc/oracles/slicing_ref.py (dict-of-lists group-by, Fractions).  Checked:
 exact key set and key shape, value per key, unsliced value independent of the
 slicer subset (implementation against implementation).
@@ -351,11 +364,95 @@ def compare(st, driver, cfg, subset, result, exp, kinds, replay):
   return got
 
 
-def drive(st, driver, cfg, subset, stream, replay):
+BASE = ('call', 'iterate', 'merge')
+CARRIED = ('carry', 'carry-inner', 'resume', 'restore')
+
+
+def cut_sets(driver, nbatches, full):
+  """The sets of batch boundaries at which a carried-state driver hands over.
+
+  carry / carry-inner hand the state over after every batch (one variant).
+  Not full: resume at every single inner boundary; restore at all inner
+  boundaries in one run.  Full: every non-empty set of inner boundaries, and the
+  two outer boundaries (0: resumed before anything was seen, n: resumed with
+  nothing left) alone.
+  """
+  if driver in ('carry', 'carry-inner'):
+    return [None] if nbatches >= 2 else []
+  if driver not in CARRIED:
+    return [None]
+  inner = tuple(range(1, nbatches))
+  if not full:
+    if not inner:
+      return []
+    return [(k,) for k in inner] if driver == 'resume' else [inner]
+  if not nbatches:
+    return []
+  return list(enums.subsets(inner, min_size=1)) + [(0,), (nbatches,)]
+
+
+def _drain(it):
+  n = 0
+  for _ in it:
+    n += 1
+  return n
+
+
+def _drive_carried(st, driver, cuts, runner, batches, replay, on_prefix):
+  """Aggregation state carried across steps; returns the reported result."""
+  from ml_metrics._src.chainables import io
+  cfg = replay.get('cfg')
+  if driver == 'carry':
+    state = runner.create_state()
+    for b in batches:
+      state = runner.update_state(state, b)
+    return runner.get_result(state)
+  if driver == 'carry-inner':
+    (inner,) = runner.named_aggs.values()
+    state = inner.create_state()
+    result = None
+    for i, b in enumerate(batches):
+      state = inner.update_state(state, b)
+      # A TreeMapView; `.data` is how ChainedRunner.get_result reads it.
+      result = inner.get_result(state).data
+      if i + 1 < len(batches):  # compared now: a result may alias the state
+        on_prefix(i + 1, result)
+    return result
+  if driver == 'resume':
+    state, n_out, it = None, 0, None
+    bounds = [0] + list(cuts) + [len(batches)]
+    for lo, hi in zip(bounds, bounds[1:]):
+      it = (runner.iterate(iter(batches[lo:hi])) if state is None else
+            runner.iterate(iter(batches[lo:hi]), state=state))
+      n_out += _drain(it)
+      state = it.agg_state
+    result = it.agg_result
+  else:  # restore
+    it = runner.iterate(io.SequenceDataSource(batches))
+    n_out = 0
+    if 0 in cuts:
+      it = it.from_state(it.state)
+    for i in range(len(batches)):
+      next(it)
+      n_out += 1
+      if i + 1 in cuts:
+        it = it.from_state(it.state)
+    n_out += _drain(it)
+    result = it.agg_result
+  if n_out != len(batches):
+    st.violation(f'C02:{driver}:forwarded-batches:{cfg}',
+                 {'n_out': n_out, **replay}, replay=replay)
+  return result
+
+
+def drive(st, driver, cfg, subset, stream, replay, cuts=None, on_prefix=None):
   """Runs one driver on a freshly built runner; returns the reported result."""
   from ml_metrics._src.chainables import transform
   batches = to_batches(stream, CONFIGS[cfg][1])[1]
   runner = build(cfg, subset).make()
+  if driver in CARRIED:
+    return _drive_carried(st, driver, cuts, runner, batches, replay,
+                          on_prefix or (lambda k, result: None))
   if driver == 'call':
     return (runner(batches[0]) if batches
             else runner(input_iterator=iter(())))
@@ -376,24 +473,26 @@ def drive(st, driver, cfg, subset, stream, replay):
   return result
 
 
-def _culprit(driver, cfg, subset, stream, sig):
+def _culprit(driver, cfg, subset, stream, sig, cuts=None):
   """The single slicer that reproduces the same error alone, else the subset."""
   for s in subset if len(subset) > 1 else ():
     try:
-      drive(Stats(), driver, cfg, (s,), stream, {})
+      drive(Stats(), driver, cfg, (s,), stream, {}, cuts)
     except Exception as e:  # pylint: disable=broad-except
       if f'{type(e).__name__}<-{type(e.__cause__ or e).__name__}' == sig:
         return s
   return '+'.join(subset) or 'no-slicer'
 
 
-def run_case(st, family, cfg, subset, stream, drivers=('call', 'iterate', 'merge')):
+def run_case(st, family, cfg, subset, stream,
+             drivers=BASE, full=False, only_cuts=None):
   """One (program, stream) pair through the drivers; returns unsliced values."""
   _, ndarray, parts = CONFIGS[cfg]
   plain, _ = to_batches(stream, ndarray)
   aggs = [p[3] for p in parts]
   kinds = {n: a['kind'] for a in aggs for n in a['names']}
-  exp = slicing_ref.expected(aggs, [MENU[s][1] for s in subset], plain)
+  slicers = [MENU[s][1] for s in subset]
+  exp = slicing_ref.expected(aggs, slicers, plain)
   replay = {'family': family, 'cfg': cfg, 'subset': list(subset),
             'stream': [list(map(list, b)) for b in stream]}
   nrows = sum(map(len, stream))
@@ -401,35 +500,48 @@ def run_case(st, family, cfg, subset, stream, drivers=('call', 'iterate', 'merge
   for driver in drivers:
     if driver == 'call' and len(stream) > 1:
       continue  # __call__(input_iterator=) is iterate() + agg_result
-    case = (driver, cfg, subset, stream)
-    st.case(case, nontrivial=nrows > 0)
-    try:
-      result = drive(st, driver, cfg, subset, stream, replay)
-    except Exception as e:  # pylint: disable=broad-except
-      cause = e.__cause__ or e
-      sig = f'{type(e).__name__}<-{type(cause).__name__}'
-      where = f'{cfg}:{_culprit(driver, cfg, subset, stream, sig)}'
-      st.violation(
-          f'C02:{driver}:raise:{sig}:{where if nrows else "empty-stream"}',
-          {'error': repr(e)[:400], 'cause': repr(cause)[:400], **replay},
-          replay=replay)
-      continue
-    got = compare(st, driver, cfg, subset, result, exp, kinds,
-                  dict(replay, driver=driver))
-    st.outcome((driver, sorted(map(repr, got.items()))))
-    if driver == 'iterate':
-      unsliced = {k: repr(v) for k, v in got.items() if k[1] is None}
+    for cuts in cut_sets(driver, len(stream), full):
+      if only_cuts is not None and cuts != only_cuts:
+        continue
+      case = ((driver, cfg, subset, stream) if cuts is None else
+              (driver, cuts, cfg, subset, stream))
+      st.case(case, nontrivial=nrows > 0)
+      rep = dict(replay, driver=driver, cuts=cuts and list(cuts))
+      def on_prefix(k, partial, driver=driver, rep=rep):
+        # the result reported after k batches = group-by of those k batches
+        compare(st, driver + '@prefix', cfg, subset, partial,
+                slicing_ref.expected(aggs, slicers, plain[:k]), kinds, rep)
+      try:
+        result = drive(st, driver, cfg, subset, stream, rep, cuts, on_prefix)
+      except Exception as e:  # pylint: disable=broad-except
+        cause = e.__cause__ or e
+        sig = f'{type(e).__name__}<-{type(cause).__name__}'
+        where = f'{cfg}:{_culprit(driver, cfg, subset, stream, sig, cuts)}'
+        st.violation(
+            f'C02:{driver}:raise:{sig}:{where if nrows else "empty-stream"}',
+            {'error': repr(e)[:400], 'cause': repr(cause)[:400], **replay},
+            replay=rep if driver in CARRIED else replay)
+        continue
+      got = compare(st, driver, cfg, subset, result, exp, kinds, rep)
+      st.outcome((driver, sorted(map(repr, got.items()))))
+      if driver == 'iterate':
+        unsliced = {k: repr(v) for k, v in got.items() if k[1] is None}
   return unsliced
 
 
 def _unit(args):
-  family, cfg, max_subset, chunk = args
+  family, cfg, max_subset, carried, chunk = args
+  single_k, full_k, carried_rows = carried
   st = Stats()
   subs = list(subsets_of(cfg, max_subset))
   for stream in chunk:
     base = None
+    carry_ok = sum(map(len, stream)) <= carried_rows
     for sub in subs:
-      unsliced = run_case(st, family, cfg, sub, stream)
+      full = carry_ok and len(sub) <= full_k
+      drivers = BASE + (CARRIED if full or (
+          carry_ok and len(sub) <= single_k) else ())
+      unsliced = run_case(st, family, cfg, sub, stream, drivers, full)
       if not sub:
         base = unsliced
       elif unsliced is not None and base is not None and unsliced != base:
@@ -444,26 +556,31 @@ def _unit(args):
 
 
 def plan(quick):
-  """[(family, min total rows, max total rows, cfgs, max slicer subset size)]."""
+  """[(family, min total rows, max total rows, cfgs, max slicer subset size,
+  carried-state drivers: (max subset size with single cuts, max subset size
+  with full cut sets, max total rows))]."""
   every = tuple(CONFIGS)
   numeric = ('mean-tuple-ndarray', 'collect-unsliced+mv', 'mv+collect-unsliced')
+  none = (-1, -1, -1)
   if quick:
-    return [('tagged', 0, 3, every, 2), ('alphabet', 0, 2, numeric, 1)]
-  return [('tagged', 0, 3, every, 3), ('tagged', 4, 4, every, 2),
-          ('alphabet', 0, 3, numeric, 1)]
+    return [('tagged', 0, 3, every, 2, (1, -1, 3)),
+            ('alphabet', 0, 2, numeric, 1, none)]
+  return [('tagged', 0, 3, every, 3, (2, 1, 3)),
+          ('tagged', 4, 4, every, 2, none),
+          ('alphabet', 0, 3, numeric, 1, (1, -1, 2))]
 
 
 def run(ctx):
   pl = plan(ctx.quick)
   units, per_cfg = [], {}
-  for family, lo, hi, cfgs, max_subset in pl:
+  for family, lo, hi, cfgs, max_subset, carried in pl:
     ss = ctx.shuffled(streams(family, lo, hi))
     ctx.notes[f'streams_{family}_rows_{lo}_to_{hi}'] = len(ss)
     for cfg in cfgs:
       nsub = len(list(subsets_of(cfg, max_subset)))
       per_cfg[f'{family}[{lo}..{hi} rows]/{cfg}'] = nsub
       per = max(1, (800 if ctx.quick else 4000) // max(1, nsub))
-      units += [(family, cfg, max_subset, ss[i:i + per])
+      units += [(family, cfg, max_subset, carried, ss[i:i + per])
                 for i in range(0, len(ss), per)]
   ctx.notes['programs'] = sum(per_cfg.values())
   ctx.notes['slicer_subsets_per_configuration'] = per_cfg
@@ -480,10 +597,26 @@ def run(ctx):
       'empty stream; family "alphabet" = same with value in {1,4,9}, numeric '
       'aggregate configurations only; bounds (family, total rows, k): %s; '
       'drivers call (one-batch and empty streams) / iterate / '
-      'update_state+merge_states+get_result; non-trivial = non-empty stream; '
-      'distinct = distinct (driver, configuration, slicer subset, stream)'
+      'update_state+merge_states+get_result; AGGREGATION STATE CARRIED ACROSS '
+      'STEPS (every stream of the family, hence every slice that occurs only '
+      'in early / only in late batches, x every configuration x every slicer '
+      'subset of size <= s): carry = one state through '
+      'ChainedRunner.update_state(state, batch) batch by batch + get_result; '
+      'carry-inner = the same on the aggregate stage\'s TransformRunner, with '
+      'get_result after every batch compared with the group-by of that prefix; '
+      'resume = iterate(batches[:k]) then iterate(batches[k:], '
+      'state=agg_state).agg_result; restore = iterate(SequenceDataSource) with '
+      'it = it.from_state(it.state) at batch boundaries; cut sets "single" = '
+      'streams of >= 2 batches, resume at each single inner boundary, restore '
+      'at all inner boundaries in one run; cut sets "full" (subsets of size <= '
+      'f) = streams of >= 1 batch, resume and restore at every non-empty set of '
+      'inner boundaries and at boundary 0 and boundary n alone; carried bounds '
+      '(family, total rows, s, f, max total rows): %s; '
+      'non-trivial = non-empty stream; distinct = distinct (driver[, cut set], '
+      'configuration, slicer subset, stream)'
       % (list(FLAT_MENU), list(NESTED_MENU),
-         [(f, f'{lo}..{hi}', k) for f, lo, hi, _, k in pl]))
+         [(f, f'{lo}..{hi}', k) for f, lo, hi, _, k, _ in pl],
+         [(f, f'{lo}..{hi}') + c for f, lo, hi, _, _, c in pl if c[2] >= 0]))
   ctx.assumptions += [
       'a slice is fed only from the batches in which it occurs; in replace mode '
       'the non-members of those batches are replaced, other batches add nothing',
@@ -493,6 +626,10 @@ def run(ctx):
       'and is only combined with the Collect aggregate there',
       'mask slicers yield nested lists of bools, one per element; row slicers '
       'are combined with rectangular nested columns only',
+      'carried state: the state returned by update_state / exposed as '
+      'agg_state / captured by .state is the one handed to the next step; the '
+      'result reported at the end (and, for carry-inner, after every batch) is '
+      'that of one pass over the batches seen so far',
   ]
   ctx.pmap(_unit, ctx.shuffled(units))
 
@@ -500,9 +637,11 @@ def run(ctx):
 def replay(ctx, data):
   r = data['replay']
   stream = tuple(tuple(tuple(row) for row in b) for b in r['stream'])
-  drivers = (r['driver'],) if r.get('driver') else ('call', 'iterate', 'merge')
+  drivers = (r['driver'],) if r.get('driver') else BASE
+  cuts = tuple(r['cuts']) if r.get('cuts') is not None else None
   base = run_case(ctx, r['family'], r['cfg'], (), stream, ('iterate',))
-  got = run_case(ctx, r['family'], r['cfg'], tuple(r['subset']), stream, drivers)
+  got = run_case(ctx, r['family'], r['cfg'], tuple(r['subset']), stream, drivers,
+                 full=True, only_cuts=cuts)
   if got is not None and base is not None and got != base:
     ctx.violation(f'C02:iterate:unsliced-depends-on-slicers:{r["cfg"]}',
                   {'without': base, 'with': got})
